@@ -375,6 +375,9 @@ class SymArray(np.ndarray):
     def astype(self, dtype, copy=True, **kw):
         if dtype is object or np.dtype(dtype) == object:
             return self.copy() if copy else self
+        if not copy and np.dtype(dtype).kind == "f" and not any(isinstance(v, (SymBool, SymComplex)) or (isinstance(v, Sym) and v.is_int) or isinstance(v, (int, bool))
+                                                               for v in self.view(np.ndarray).reshape(-1)):
+            return self  # numpy semantics: no copy when the array already has the requested (floating) type
         out = elementwise(lambda a: cast_scalar(a, dtype), self)
         if not any_symbolic(out) and np.dtype(dtype).kind in "iub":
             return np.asarray(out.view(np.ndarray).tolist(), dtype=dtype).reshape(self.shape)
